@@ -166,3 +166,133 @@ def build2(m):
                    prop=P, options={'tier': 'thorough', 'concat_axioms': True},
                    note='termination of loop#0 is not proved (lexicographic variant over a sum of heap fields); '
                         'index and attribute safety do not depend on it'))
+
+
+def build3(m):
+    """find_core_tokens: the inline scanner that builds the delimiter stack (C01 index safety and
+    progress; C06/C02: every delimiter it records is '[', '![' or a run of one emphasis character)."""
+    MATCH = TRef('Match')
+    MO = TRef('MatchObj')
+    m.classes.setdefault('Match', {})
+    m.classes.setdefault('Token', {'line_number': INT})
+    m.globals.setdefault('core_tokens._code_matches', TList(MATCH))
+    ns = m.namespaces[MOD]
+    ns['_code_matches'] = ('global', 'core_tokens._code_matches')
+    ns['code_pattern'] = ('const', mk_obj('pattern', 'code_pattern'))
+    ns['find_link_image'] = ('func', MOD + ':find_link_image')
+    if ('Match', 'start') not in m.methods:
+        # the match protocol of m_span_tokenizer.build5 (declared here too so that this module loads alone)
+        m.ufunc('m_start', [MATCH, INT], INT)
+        m.ufunc('m_end', [MATCH, INT], INT)
+        m.methods[('Match', 'start')] = 'protocol:Match.start'
+        m.add(Contract('protocol:Match.start', [('self', MATCH), ('n', INT, mk_int(0))], returns=INT, trusted=True, pure=True,
+                       ensures=['result == m_start(self, n)']))
+        m.methods[('Match', 'end')] = 'protocol:Match.end'
+        m.add(Contract('protocol:Match.end', [('self', MATCH), ('n', INT, mk_int(0))], returns=INT, trusted=True, pure=True,
+                       ensures=['result == m_end(self, n)']))
+    m.add(Contract('re:code_pattern.search', [('s', STR), ('pos', INT, mk_int(0))], returns=TOpt(MATCH), trusted=True, pure=True,
+                   ensures=['implies(not is_none(result), pos <= m_start(some(result), 0) and '
+                            'm_start(some(result), 0) < m_end(some(result), 0) and m_end(some(result), 0) <= len(s))'],
+                   note='A5 capture contract of code_pattern.search(s, pos): a match lies in s[pos:] and is not empty '
+                        '(the pattern needs at least an opening run, one character and a closing run)'))
+    FIELDS = ['F:Delimiter.start', 'F:Delimiter.end', 'F:Delimiter.number', 'F:Delimiter.type', 'F:Delimiter.active',
+              'N:MatchObj.type', 'N:MatchObj.delimiter', 'N:MatchObj._start', 'N:MatchObj._end']
+    m.add(Contract(MOD + ':find_link_image',
+                   [('string', STR), ('offset', INT), ('delimiters', TList(DL)), ('matches', TList(MO)), ('root', TOpt(TRef('Token')), NONE_VAL)],
+                   returns=INT, trusted=True,
+                   requires=['STACK_OK(delimiters, string)', '0 <= offset', 'offset < len(string)'],
+                   ensures=['offset <= result', 'result < len(string)', 'STACK_OK(new_delimiters, string)',
+                            'forall(lambda i: allocated(new_delimiters[i]), 0, len(new_delimiters))'],
+                   modifies=['P:delimiters', 'P:matches'] + FIELDS,
+                   note='not yet under contract: returns the offset it was given or the last index of the link it matched; '
+                        'keeps the stack invariant (it removes entries and calls process_emphasis)'))
+    RUN = ("(arg_string[arg_start:arg_end] == '[' or arg_string[arg_start:arg_end] == '![' or "
+           "((arg_string[arg_start] == '*' or arg_string[arg_start] == '_') and "
+           "forall(lambda k: arg_string[k] == arg_string[arg_start], arg_start, arg_end)))")
+    m.add(Contract(MOD + ':find_core_tokens', [('string', STR), ('root', TOpt(TRef('Token')))], returns=TList(MO),
+                   modifies=['G:core_tokens._code_matches'] + FIELDS,
+                   body_types={'in_delimiter_run': TOpt(STR), 'code_match': TOpt(MATCH), 'delimiters': TList(DL),
+                               'matches': TList(MO)},
+                   call_asserts={MOD + ':Delimiter.__init__': [
+                       # C06 / C02: what goes on the delimiter stack is a link/image opener or a run of
+                       # one emphasis character (never an unrelated neighbour character)
+                       (RUN, ['C06', 'C02'])]},
+                   loops={0: Loop(invariant=[
+                       '0 <= i', 'i <= len(string)',
+                       'STACK_OK(delimiters, string)',
+                       'forall(lambda i: allocated(delimiters[i]), 0, len(delimiters))',
+                       'implies(escaped, i >= 1)',
+                       'implies(in_image, i >= 1 and string[i - 1] == "!" and not escaped)',
+                       "is_none(in_delimiter_run) or some(in_delimiter_run) == '*' or some(in_delimiter_run) == '_'",
+                       'implies(not is_none(in_delimiter_run), 0 <= start and start < i - (1 if escaped else 0) and '
+                       'forall(lambda k: string[k] == some(in_delimiter_run), start, i - (1 if escaped else 0)))',
+                       'is_none(code_match) or (m_start(some(code_match), 0) < m_end(some(code_match), 0) and '
+                       'm_end(some(code_match), 0) <= len(string) and 0 <= m_start(some(code_match), 0))',
+                   ], decreases='len(string) - i')},
+                   prop=['C01'], note='process_emphasis and find_link_image are used by contract'))
+
+
+def build4(m):
+    """The inline link scanners: returned offsets lie in the string and move forward (C01), and a
+    title never directly abuts the destination (C02, CommonMark 6.3)."""
+    ns = m.namespaces[MOD]
+    ns['match_link_dest'] = ('func', MOD + ':match_link_dest')
+    ns['match_link_title'] = ('func', MOD + ':match_link_title')
+    SPAN3 = TTuple([INT, INT, STR])
+    m.add(Contract(MOD + ':match_link_dest', [('string', STR), ('offset', INT)], returns=TOpt(SPAN3), pure=True,
+                   requires=['0 <= offset', 'offset < len(string)'],
+                   ensures=['implies(not is_none(result), offset < some(result)[0] and some(result)[0] <= some(result)[1] '
+                            'and some(result)[1] <= len(string))',
+                            # the destination ends before the end of the string: a character (the closing
+                            # parenthesis, whitespace or '>') always follows it or is its last character
+                            'implies(not is_none(result), some(result)[1] < len(string) or some(result)[1] > some(result)[0])'],
+                   loops={0: Loop(invariant=[]), 1: Loop(invariant=['count >= 1'])},
+                   prop=['C01']))
+    m.add(Contract(MOD + ':match_link_title', [('string', STR), ('offset', INT)], returns=TOpt(SPAN3), pure=True,
+                   requires=['0 <= offset', 'offset <= len(string)'],
+                   ensures=['implies(not is_none(result), offset <= some(result)[0] and some(result)[0] <= some(result)[1] '
+                            'and some(result)[1] <= len(string))',
+                            # C02 (CommonMark 6.3): a non-empty title is separated from the destination by whitespace
+                            ('implies(not is_none(result) and some(result)[0] < some(result)[1], offset < some(result)[0])', 'C02')],
+                   loops={0: Loop(invariant=[])},
+                   prop=['C01']))
+
+
+def build5(m):
+    """find_link_image (C01): the bracket handler of the inline scanner keeps the delimiter stack
+    well-formed and returns an offset inside the string that never moves backwards."""
+    MO = TRef('MatchObj')
+    ns = m.namespaces[MOD]
+    ns['match_link_image'] = ('func', MOD + ':match_link_image')
+    FIELDS = ['F:Delimiter.start', 'F:Delimiter.end', 'F:Delimiter.number', 'F:Delimiter.type', 'F:Delimiter.active',
+              'N:MatchObj.type', 'N:MatchObj.delimiter', 'N:MatchObj._start', 'N:MatchObj._end']
+    m.add(Contract(MOD + ':deactivate_delimiters', [('delimiters', TList(DL)), ('index', INT), ('delimiter_type', STR)],
+                   requires=['0 <= index', 'index <= len(delimiters)'],
+                   modifies=['F:Delimiter.active'], loops={0: Loop(invariant=[])}, prop=['C01']))
+    m.methods[('MatchObj', 'end')] = MOD + ':MatchObj.end'
+    m.add(Contract(MOD + ':MatchObj.end', [('self', MO), ('n', INT, mk_int(0))], returns=INT, trusted=True, pure=True,
+                   requires=['n == 0'], ensures=['result == self._end'],
+                   note='MatchObj.end(0) returns the stored end (varargs fields not modelled)'))
+    m.add(Contract(MOD + ':match_link_image',
+                   [('string', STR), ('offset', INT), ('delimiter', DL), ('root', TOpt(TRef('Token')), NONE_VAL)],
+                   returns=TOpt(MO), trusted=True,
+                   requires=['0 <= offset', 'offset < len(string)', 'DELIM_OK(delimiter)'],
+                   ensures=['implies(not is_none(result), offset < some(result)._end and some(result)._end <= len(string))'],
+                   modifies=['N:MatchObj.type', 'N:MatchObj.delimiter', 'N:MatchObj._start', 'N:MatchObj._end'],
+                   note='not under contract (builds MatchObj with tuple fields): a link match ends after the closing '
+                        'bracket at `offset` and inside the string'))
+    c = m.contracts[MOD + ':find_link_image']
+    c.trusted = False
+    c.note = 'verified; match_link_image and process_emphasis are used by contract'
+    c.requires = c.requires + ['forall(lambda i: allocated(delimiters[i]), 0, len(delimiters))']
+    c.prop = ['C01']
+    c.loops = {0: Loop(invariant=['i == len(delimiters) - 1 - _k0', 'same(delimiters, old(delimiters))',
+                                  'same(matches, old(matches))', 'STACK_OK(delimiters, string)',
+                                  'forall(lambda j: allocated(delimiters[j]), 0, len(delimiters))'])}
+    c.body_types = {'match': TOpt(MO)}
+    c.ghost_init = {'g_end': (INT, '0')}
+    c.ghost_after = {
+        'match = match_link_image(string, offset, delimiter, root)': [('g_end', '0 if is_none(match) else some(match)._end')],
+        # the match object is older than anything process_emphasis allocates: its end is untouched
+        'process_emphasis(string, i, delimiters, matches)': [('__assert__', 'some(match)._end == g_end')],
+    }
